@@ -121,14 +121,16 @@ def run(ctx):
                 ctx.disagreement('with_extra_marker ~ m_with_extra', {'marker': markers.describe(sess, a), 'extra': name}, pretty(got)[:500], pretty(want)[:500])
         # extra == 'N' matching: normalised membership, invalid names never match, != is the negation
         for name in markers.EXTRAS + markers.BAD_EXTRAS:
-            for active in ([], ['a'], ['a-b'], ['x-y', 'a.b'], ['dev', 'A_b']):
+            for active in ([], ['a'], ['a-b'], ['x-y', 'a.b'], ['dev', 'A_b'], ['bob-s', 'bobs']):
                 x, r = sess.parse("extra == %s" % markers.q(ctx.rng, name))
                 y, _ = sess.parse("%s != extra" % markers.q(ctx.rng, name))
                 if x is None or y is None:
                     continue
-                an = [unS(sess.ask(['name', S(e)])[5][1]) for e in active]
-                nm = sess.ask(['name', S(name)])[5]
-                want = (nm != 'err') and (unS(nm[1]) in an)
+                # the PEP 508 / 685 reading written down here, not asked of the crate: valid shape, lower case, runs of - _ . as one -
+                import re
+                norm = lambda t: re.sub(r'[-_.]+', '-', t).lower() if re.fullmatch(r'[A-Za-z0-9]([A-Za-z0-9._-]*[A-Za-z0-9])?', t) else None
+                an = [norm(e) for e in active]
+                want = norm(name) is not None and norm(name) in an
                 r1 = c02.eval_all(sess, x, markers.DEFAULT_ENV, active)
                 r2 = c02.eval_all(sess, y, markers.DEFAULT_ENV, active)
                 ctx.oracle_cases += 1
